@@ -25,16 +25,17 @@ type hNodeReg struct {
 
 type hModel struct {
 	b     *Broker
-	ctx   *vCtx
+	ctx   context.Context
 	nodes [4]hNodeReg // f, s, s2, x (a filter)
-	pipes [2]hPipe    // p: f,s (or x,f,s)   q: f,s2
+	pipes [3]hPipe    // p@t: f,s (or x,f,s)   q@t: f,s2   p@u: the same pipeline id under another event type (f,s)
 	all   []*cNode    // every node object ever handed to the broker
 	wantP []int       // expected Process count per object
 	wantC []int       // expected Close count per object (only for objects the model knows must be closed)
 }
 
 var hIDs = [4]NodeID{"f", "s", "s2", "x"}
-var hPIDs = [2]PipelineID{"p", "q"}
+var hPIDs = [3]PipelineID{"p", "q", "p"}
+var hTypes = [3]EventType{"t", "t", "u"}
 
 func hIdx(id NodeID) int {
 	for i, x := range hIDs {
@@ -117,10 +118,10 @@ func (m *hModel) registerPipelineAs(pi int, long bool, deny bool, tag string) {
 	ids := []NodeID{"f", "s"}
 	if pi == 1 {
 		ids = []NodeID{"f", "s2"}
-	} else if long {
+	} else if long && pi == 0 {
 		ids = []NodeID{"x", "f", "s"}
 	}
-	err := m.b.RegisterPipeline(Pipeline{PipelineID: hPIDs[pi], EventType: "t", NodeIDs: ids}, hPPol(deny))
+	err := m.b.RegisterPipeline(Pipeline{PipelineID: hPIDs[pi], EventType: hTypes[pi], NodeIDs: ids}, hPPol(deny))
 	p := &m.pipes[pi]
 	allOn := true
 	var objs []*cNode
@@ -138,12 +139,12 @@ func (m *hModel) registerPipelineAs(pi int, long bool, deny bool, tag string) {
 }
 
 func (m *hModel) removePipeline(pi int, tag string) {
-	m.b.RemovePipeline("t", hPIDs[pi])
+	m.b.RemovePipeline(hTypes[pi], hPIDs[pi])
 	m.pipes[pi].on = false
 }
 
 func (m *hModel) removePipelineAndNodes(pi int, tag string) {
-	ok, err := m.b.RemovePipelineAndNodes(m.ctx, "t", hPIDs[pi])
+	ok, err := m.b.RemovePipelineAndNodes(m.ctx, hTypes[pi], hPIDs[pi])
 	p := &m.pipes[pi]
 	if !p.on {
 		verifAssert(!ok && err != nil, tag+".rpan.unknown-pipeline-is-false-and-error")
@@ -173,7 +174,8 @@ func (m *hModel) removeNode(slot int, tag string) {
 }
 
 func (m *hModel) send(tag string) {
-	m.b.Send(m.ctx, "t", "payload")
+	m.b.Send(&vCtx{}, "t", "payload") // a live context: a Send under a done context may legitimately skip pipelines
+	m.b.Send(&vCtx{}, "u", "payload")
 	for _, p := range m.pipes {
 		if p.on {
 			for _, o := range p.objs {
@@ -210,11 +212,9 @@ func (m *hModel) agree(tag string) {
 			verifAssert(nu.node == Node(r.obj), tag+".registered-object")
 		}
 	}
-	any := false
-	for _, p := range m.pipes {
-		any = any || p.on
-	}
+	any := m.pipes[0].on || m.pipes[1].on
 	verifAssert(m.b.IsAnyPipelineRegistered("t") == any, tag+".is-any-pipeline-registered")
+	verifAssert(m.b.IsAnyPipelineRegistered("u") == m.pipes[2].on, tag+".is-any-pipeline-registered-other-type")
 	for i, n := range m.all {
 		verifAssert(n.procs == m.wantP[i], tag+".deliveries")
 		verifAssert(n.closes == m.wantC[i], tag+".closes")
@@ -223,11 +223,16 @@ func (m *hModel) agree(tag string) {
 
 func H_C05_history_vs_model() {
 	m := &hModel{ctx: &vCtx{}}
+	if nondetBool() {
+		// every call of the history gets a context that is already done: registry semantics do not depend on it
+		m.ctx = verifCancelledCtx(false)
+	}
 	m.b, _ = NewBroker()
 	// pre-state through the API: the three ids registered with symbolic policies, p and/or q registered
-	for slot := 0; slot < 3; slot++ {
+	for slot := 0; slot < 2; slot++ {
 		m.registerNode(slot, nondetBool(), "C05.history.pre")
 	}
+	m.registerNode(2, false, "C05.history.pre")
 	m.registerNode(3, false, "C05.history.pre")
 	pre := symLen(0, 3)
 	if pre == 1 || pre == 3 {
@@ -236,14 +241,20 @@ func H_C05_history_vs_model() {
 	if pre == 2 || pre == 3 {
 		m.registerPipeline(1, nondetBool(), "C05.history.pre")
 	}
+	if nondetBool() {
+		// the same pipeline id registered (DenyOverwrite) under another event type: an independent pipeline
+		m.registerPipeline(2, true, "C05.history.pre")
+	}
 	H := verifParam("H")
 	for i := 0; i < H; i++ {
-		op := symLen(0, 14)
+		op := symLen(0, 15)
 		verifNoteInt("op", op)
 		tag := "C05.history"
 		switch op {
 		case 14:
 			m.reopen(tag)
+		case 15:
+			m.removePipelineAndNodes(2, tag)
 		case 12:
 			m.registerPipelineAs(0, true, nondetBool(), tag)
 		case 13:
